@@ -1,0 +1,14 @@
+//go:build verif
+
+// Contracts for package bluge, checked by /verif/bin/govc (comment-only file).
+package bluge
+
+//@ fileprops C09
+
+// Building the collector for a request leaves the request - and the sort order objects the
+// caller handed in - as they were: the same request ranks the same way every time it is run.
+//@ func TopNSearch.Collector() (r)
+//@   props C09
+//@   requires s != nil
+//@   requires [no-nil-entries] forall j int :: (0 <= j && j < len(s.sort)) ==> s.sort[j] != nil
+//@   modifies
